@@ -1067,19 +1067,22 @@ static void record_fault_site(size_t n)
  * allocated by someone else (OpenSSL, libc directly): with a real custom allocator that corrupts the heap. */
 static int track_alloc, in_lib;
 #define TRK_N (1u << 21)
-static void *trk_tab[TRK_N];
+/* addresses are kept complemented, so that LeakSanitizer does not take the table for references to the blocks */
+static uintptr_t trk_tab[TRK_N];
 static unsigned trk_slot(void *p) { return (unsigned)(((uintptr_t)p >> 4) * 2654435761u) & (TRK_N - 1); }
 static void trk_add(void *p)
 {
 	unsigned i = trk_slot(p);
+	uintptr_t v = ~(uintptr_t)p;
 	for (unsigned n = 0; n < TRK_N; n++, i = (i + 1) & (TRK_N - 1))
-		if (!trk_tab[i] || trk_tab[i] == (void *)1 || trk_tab[i] == p) { trk_tab[i] = p; return; }
+		if (!trk_tab[i] || trk_tab[i] == 1 || trk_tab[i] == v) { trk_tab[i] = v; return; }
 }
 static int trk_del(void *p)
 {
 	unsigned i = trk_slot(p);
+	uintptr_t v = ~(uintptr_t)p;
 	for (unsigned n = 0; n < TRK_N && trk_tab[i]; n++, i = (i + 1) & (TRK_N - 1))
-		if (trk_tab[i] == p) { trk_tab[i] = (void *)1; return 1; }
+		if (trk_tab[i] == v) { trk_tab[i] = 1; return 1; }
 	return 0;
 }
 static void *drv_malloc_raw(size_t n) { void *p = malloc(n); if (p && track_alloc) trk_add(p); return p; }
